@@ -3,6 +3,6 @@
 ROOT="${1:-/verif/seeded}"
 for p in $(ls $ROOT/*/patch.diff $ROOT/*/*/patch.diff 2>/dev/null | sort); do
   out=$(/verif/tools/try_patch.sh "$p" 2>&1)
-  n=$(echo "$out" | grep -c -E '^(violated|undecided)')
+  n=$(echo "$out" | grep -c -E '^(violated|undecided|ERROR|CHECK-ERROR)')
   if [ "$n" -gt 0 ]; then echo "CAUGHT $p :: $(echo "$out" | grep -E '^(violated|undecided)' | awk '{print $2}' | sort -u | tr '\n' ' ')"; else echo "MISSED $p :: $out"; fi
 done
